@@ -870,6 +870,55 @@ REGRESS = [('avgV-unamplified-defaults',), ('nv-unamplified-BW_opt-default',), (
 
 
 # ---------------------------------------------------------------------------------------------------------
+# ------------------------------------------------------------------ ambient-grid independence (added by the coordinator)
+AMBIENT = [dict(), dict(sps=16, R=10e9, wavelength=1310e-9), dict(sps=8, R=2.5e9, wavelength=850e-9), dict(sps=4, R=40e9)]
+
+
+def ambient_case(case):
+    """The formulas of C13 are functions of their arguments only: nothing in their signature refers to the global grid.
+    case = (name of the call, arguments).  The same call with the same (default) carrier arguments is evaluated after the
+    global grid `gv` has been configured in several ways (other wavelength / rates); every result must be bit-identical to
+    the one obtained under the pristine grid, and the receiver-model helpers called with their documented default
+    wavelength must describe the same receiver as utils.theory_BER called with its default f0."""
+    name, P, kind, M, dec, amp = case
+    from opticomlib import utils as U, ook as OOK, ppm as PPM
+    kw = dict(G=20.0, NF=5.0, BW_opt=20e9) if amp else {}
+    calls = {
+        'p_ase': lambda: U.p_ase(amp, **kw),
+        'average_voltages': lambda: U.average_voltages(P, kind, M, amplify=amp, **kw),
+        'noise_variances': lambda: U.noise_variances(P, kind, M, amplify=amp, **(kw if amp else dict(G=0.0, NF=0.0, BW_opt=20e9))),
+        'theory_BER': lambda: U.theory_BER(P, kind, M, dec, amplify=amp, **kw),
+        'ook.theory_BER': lambda: OOK.theory_BER(np.array([1.0, 2.0]), 0.1, 0.2),
+        'ppm.theory_BER': lambda: PPM.theory_BER(np.array([1.0, 2.0]), 0.2, 0.3, M or 4, dec or 'hard'),
+        'optimum_threshold': lambda: U.optimum_threshold(0.1, 1.1, 0.01, 0.04, kind, M),
+    }
+    f = calls[name]
+    viol, outs = [], []
+    for g in AMBIENT:
+        gv_reset(**g)
+        r = f()
+        outs.append(repr(np.asarray(r[0] if isinstance(r, tuple) else r, dtype=float).tolist()) + (repr(r[1]) if isinstance(r, tuple) else ''))
+    gv_reset()
+    if len(set(outs)) > 1:
+        j = next(i for i, o in enumerate(outs) if o != outs[0])
+        viol.append((f'ambient-gv-dependence:{name}', f'{name}{case[1:]} returns {outs[0][:80]} under the pristine grid but {outs[j][:80]} after gv(**{AMBIENT[j]}): '
+                     f'the receiver model depends on hidden global state'))
+    return res(viol=viol, obs=tuple(outs), nontrivial=(name, amp, kind, M, dec), stats={'calls.lib': len(AMBIENT)})
+
+
+def ambient_cases():
+    out = []
+    for amp in (True, False):
+        for kind, M, dec in MODS:
+            for P in (-40.0, -25.0):
+                for name in ('p_ase', 'average_voltages', 'noise_variances', 'theory_BER'):
+                    out.append((name, P, kind, M, dec, amp))
+    for name in ('ook.theory_BER', 'ppm.theory_BER', 'optimum_threshold'):
+        out.append((name, -25.0, 'ppm', 4, 'hard', False))
+        out.append((name, -25.0, 'ook', None, None, False))
+    return out
+
+
 def run(ctx):
     tier = ctx.tier
     sg_, lad = sigmas(tier), ladder(tier)
@@ -900,4 +949,5 @@ def run(ctx):
     t3 = time.time()
     ctx.pmap('devices', devices_case, devices_cases(tier), horizon=60)
     t4 = time.time()
+    ctx.pmap('ambient-gv', ambient_case, ambient_cases(), horizon=120)
     print(f'[C13] wall per part: formulas {t1-t0:.1f}s estimators {t2-t1:.1f}s receiver {t3-t2:.1f}s devices {t4-t3:.1f}s', flush=True)
